@@ -73,14 +73,23 @@ def main():
     meta["ran"].append({"cmd": "PYTHONPATH=<wt> python demo.py (with change)",
                         "exit": rc1, "tail": out1[-300:]})
     # 2. demo without the change
-    sh(["git", "-C", wt, "stash"])
+    # (not `git stash`: the stash is shared by all worktrees of /repo)
+    tmpd = tempfile.mkdtemp(prefix="ingest_", dir="/tmp")
+    pfile = os.path.join(tmpd, "change.diff")
+    with open(pfile, "w") as f:
+        f.write(diff)
+    rcr, outr = sh(["git", "-C", wt, "apply", "-R", pfile])
+    assert rcr == 0, outr
     try:
         rc0, out0 = sh([PY, os.path.join(wt, "demo.py")], cwd=wt, env=env,
                        timeout=900)
     finally:
-        sh(["git", "-C", wt, "stash", "pop"])
-    meta["ran"].append({"cmd": "git stash; python demo.py; git stash pop "
-                        "(without change)", "exit": rc0, "tail": out0[-300:]})
+        rca, outa = sh(["git", "-C", wt, "apply", pfile])
+        assert rca == 0, outa
+        shutil.rmtree(tmpd, ignore_errors=True)
+    meta["ran"].append({"cmd": "git apply -R change.diff; python demo.py; "
+                        "git apply change.diff (without change)",
+                        "exit": rc0, "tail": out0[-300:]})
     # 3. test suite with the change
     if not a.skip_tests:
         rct, outt = sh([PY, "-m", "pytest", "-q", "-p", "no:cacheprovider",
